@@ -22,6 +22,7 @@ CHECKS = {
  "C18": (True, "Bounded model checking of representation independence: each logical value (integer, float, string, array, map; payloads are solver variables) is rendered in the canonical Go representation and in another one (every integer width, float32, typed slice, fixed array, typed map, ordered YAML map, []byte, pointer, Drop at the top or nested) through a corpus of templates covering printing, comparison, arithmetic, indexing, loops and modifiers, filters and case; outputs and error-ness must agree.", "DESIGN.md §4 C18"),
  "C14": (True, "Bounded model checking of include over a stubbed file system: for each includer location, argument form (literal, variable, filtered expression, sub-directory, parent directory) and file state (on disk, cache only, both with different content, missing, unreadable) the output is compared with rendering the chosen content directly with the includer's current variables (payloads are solver variables); non-string arguments and failing included templates must fail; nested includes resolve relative to the parsed path. Natively replayed on real files in a scratch directory.", "DESIGN.md §4 C14"),
  "C20": (True, "Bounded model checking over fault schedules: the index k of the failing Write and the number of bytes it accepts are solver variables (every k up to the number of writes of the fault-free render, computed on the same path), for a template corpus covering every tag; FRender/ParseAndFRender must return a non-nil error without panicking, the accepted bytes must be a prefix of the fault-free output, and no Write may follow the failing one.", "DESIGN.md §4 C20"),
+ "C01": (True, "Bounded model checking with 'no uncaught Go panic leaves the harness' as an implicit assertion on every path: every standard filter x a 20-value boundary receiver universe x 0-2 arguments (integer arguments of numeric-parameter filters are unconstrained 64-bit solver variables), filter chains, the ragel lexer and goyacc parser on arbitrary ASCII bytes, numeric literals up to 20 digits, every operator/lookup form on every ordered pair of 14 value kinds with symbolic payloads, ranges with arbitrary endpoints, every tag with hostile bindings (forloop spoofing, modifiers/include/case of every kind), malformed sources; loops are bounded by an unwinding limit that makes a run inconclusive, never a pass.", "DESIGN.md §4 C01"),
  "C02": (True, "Bounded model checking with the environment made symbolic: the iteration order of the map under test is an arbitrary permutation chosen afresh at every range/MapKeys (a forked environment choice), payloads are solver variables, and one path renders repeatedly and compares outputs (self-composition), for every template that consumes a map; all entry points (Render, RenderString, FRender, ParseAndRender, ParseAndRenderString, ParseAndFRender), a re-parse and a fresh engine are compared on the corpus incl. failing templates. Natively the render is repeated 48 times.", "DESIGN.md §4 C02"),
  "C03": (True, "Bounded model checking by one inductive step: from a pre-state with symbolic payloads (slices with spare capacity, nested and shared maps, Drops, pointers), one render of every corpus template is executed symbolically and the engine traps every store, map update, append and copy that reaches an object allocated before the render (bindings, parsed template, configuration, globals). No such store on any path means bindings and template are unchanged and every history of renders is independent; a snapshot comparison and render/fail/render sequences are asserted as the natively checkable shadow.", "DESIGN.md §4 C03"),
  "C04": (True, "Bounded model checking plus a stated thread-modular reduction: goroutines parsing and rendering on a configured engine share only objects that exist before their call, so if no single-threaded ParseTemplate or Render stores into such an object or a package-level variable (decided by the engine's frame check on every store of every symbolic path of every corpus template, including compile-time-captured closure variables), no interleaving has a data race and every call equals its sequential run. Goroutine schedules themselves are not explored.", "DESIGN.md §4 C04"),
